@@ -46,6 +46,17 @@ CHECKS["C05"] = dict(level="exploration", engine="sweep",
    note="The byte bound is exact (ring length via the read-only hook); heap constants (3x + 4 MiB) are generous. Worker processes have a 6 GiB address-space limit and a 20 s watchdog, so an unbounded expansion is a verdict, not a crash.",
    design="3/C05")
 
+CHECKS["C06"] = dict(level="model_checking", engine="xplore",
+   technique="explicit-state BFS over driver programs on the real FrameDecoder (history replay, canonical key incl. ring geometry and running hash), known plaintext as reference model",
+   text="System = one decoder + one source + sinks. From every reachable state every operation of the menu is applied: decode_blocks with All / UptoBlocks(1,2) / UptoBytes(0,1,W,2^20); collect; read of 0,1,7,W,W+1,2^20 bytes; collect_to_writer into 8 sink behaviours (everything, 1 byte per write, Ok(0) immediately, Ok(0) after 5, 3 per write up to 1000, WouldBlock immediately, WouldBlock after 250, hard error after 7) - fine-grained drains limited to 3 per path; sources: slice and k-byte-per-read readers. Second system: decode_from_to with every chunk length from the current position x target lengths {0,1,3,64,2^20} (every chunking of frames up to 70 bytes, boundary chunkings of larger ones). After every step: delivered bytes are the next bytes of the known content (nothing lost, duplicated or reordered when a sink stops early), consumed counters equal what was taken from the source, decode_from_to never reports more than it was given. At every terminal state: content, exact consumption, checksums. Frames: 6-block 1 KiB-window frame whose matches reach back a full window (with/without checksum), single RLE block, empty last block, content smaller than window; thorough adds 12 blocks and a 300 KB libzstd frame.",
+   note="Key soundness: equal key => same frame position, same buffered bytes (plaintext is fixed), same ring geometry, same hash state, so equal futures. Fine-grained drains are bounded per path because delivered-length x ring-geometry is otherwise quadratic; ring geometry in depth is C04.",
+   design="3/C06")
+CHECKS["C08"] = dict(level="model_checking", engine="xplore",
+   technique="same explicit-state exploration as C06 with the running hash value in the state key; independent XXH64 at every terminal state; drain-path x ring-layout coverage matrix; exhaustive compressor reuse histories",
+   text="The decoder's running hash value is part of the BFS key, so a drain path that hashes the wrong bytes leads to a distinct state whose terminal check fails: at every terminal state (finished, everything taken, by any mix of read / read_all / collect / collect_to_writer with partial and failing sinks) get_calculated_checksum() must equal the low 32 bits of zmodel's XXH64 of the bytes delivered, and get_checksum_from_data() the stored field. The evidence carries the matrix {8 drain paths} x {ring contiguous, wrapped}; empty cells are listed. Compressor: every history of up to 2/3 frames over 8 inputs (empty, 1 byte, sub-block, exactly one block, one block + 1, two blocks, incompressible 300 KB) through one reused FrameCompressor at both levels must end with XXH64(input) & 0xFFFFFFFF and carry the flag.",
+   note="XXH64 in zmodel is cross-checked against twox-hash on every run and against libzstd through every checksummed model frame.",
+   design="3/C08")
+
 NOT_YET = {}
 
 def main():
